@@ -438,13 +438,14 @@ var assertKinds = []string{
 }
 
 // variants of an instantiation
-//   ""          plain
-//   "+msg"      with the optional custom message argument
-//   "+emptymsg" with "" as the custom message
-//   "/type"     an argument of the wrong type (fails by construction)
-//   "/bad-regex" an invalid pattern
-//   "/argc"     too few arguments
-//   "/expr"     the assertion is used as an expression (set var.b = assert.x(...))
+//
+//	""          plain
+//	"+msg"      with the optional custom message argument
+//	"+emptymsg" with "" as the custom message
+//	"/type"     an argument of the wrong type (fails by construction)
+//	"/bad-regex" an invalid pattern
+//	"/argc"     too few arguments
+//	"/expr"     the assertion is used as an expression (set var.b = assert.x(...))
 var variants = []string{"", "", "", "+msg", "/type", "/argc", "/expr", "+emptymsg", "/bad-regex"}
 
 func pickFact(r *rand.Rand, sc *Scenario, ok func(Fact) bool) (Fact, bool) {
@@ -518,6 +519,30 @@ func inst(r *rand.Rand, kind string, hold bool, variant string, sc *Scenario, un
 	strFact := func() (Fact, bool) { return pickFact(r, sc, isT("STRING")) }
 
 	switch variant {
+	case "/in-if", "/in-dead-branch":
+		// the assertion sits in a nested block: executed ("/in-if") or in a branch that is not taken
+		// (an assertion that would fail, but is never reached: the test passes)
+		if variant == "/in-dead-branch" && !hold {
+			return none, false
+		}
+		inner, ok := inst(r, kind, hold && variant == "/in-if", "", sc, uniq)
+		if !ok {
+			return none, false
+		}
+		cond := "!req.http.Unset-Hdr"
+		if variant == "/in-dead-branch" {
+			cond = "req.http.Unset-Hdr"
+		}
+		inner.Kind = kind + variant
+		code := []string{"if (" + cond + ") {"}
+		for _, l := range inner.Code {
+			code = append(code, "  "+l)
+		}
+		inner.Code = append(code, "}")
+		if variant == "/in-dead-branch" {
+			inner.Fail, inner.Class, inner.Msg, inner.Asserts = false, "", "", 0
+		}
+		return inner, true
 	case "/argc":
 		if hold {
 			return none, false
